@@ -31,11 +31,12 @@ const (
 	layS1                 // dst = s1[:0]
 	layS1k                // dst = s1[:k], k > 0 (same memory, non-zero length)
 	layS1zc               // dst = s1[:0:0] (aliases s1 but has no room)
+	layS1c                // dst = s1[:0:c], 0 < c < len(s1): the prefix of s1 with room for only a part of the result
 	layS2                 // dst = s2[:0]
 	nLay
 )
 
-var layNames = [...]string{"nil", "empty-cap0", "fresh-spare-cap", "fresh-short-cap", "fresh-garbage-len", "s1[:0]", "s1[:k]", "s1[:0:0]", "s2[:0]"}
+var layNames = [...]string{"nil", "empty-cap0", "fresh-spare-cap", "fresh-short-cap", "fresh-garbage-len", "s1[:0]", "s1[:k]", "s1[:0:0]", "s1[:0:c]", "s2[:0]"}
 
 // function ids (indices of the per-function call counters)
 const (
@@ -71,15 +72,18 @@ const (
 	cDup
 	cRandInputs
 	cSmallInputs
+	cAliasedRoomExhausted
 	nMisc
 )
 
 var miscNames = [...]string{"result_empty", "result_all_of_s1", "result_proper_subsequence", "aliased_dst_nonempty_result",
 	"dst_had_to_grow", "inplace_argument_reordered", "inplace_proper_partition", "s1_nil", "s1_empty", "s2_nil", "s2_empty",
-	"s1_with_duplicates", "setops_random_inputs", "small_scope_inputs"}
+	"s1_with_duplicates", "setops_random_inputs", "small_scope_inputs", "aliased_dst_room_exhausted_midway"}
 
 type setAcc struct {
 	calls [nOps]int64
+	aop   [5]int64 // dst-taking function called with a destination that is the prefix of an input
+	a2op  [5]int64 // ... the prefix of s2
 	lays  [nLay]int64
 	alias [nAlias]int64
 	misc  [nMisc]int64
@@ -89,6 +93,16 @@ func (a *setAcc) flush(c *ev.Case) {
 	for i, v := range a.calls {
 		if v != 0 {
 			c.Add("calls/"+opNames[i], v)
+		}
+	}
+	for i, v := range a.aop {
+		if v != 0 {
+			c.Add("aliased_dst_calls/"+opNames[i], v)
+		}
+	}
+	for i, v := range a.a2op {
+		if v != 0 {
+			c.Add("dst_is_prefix_of_s2_calls/"+opNames[i], v)
 		}
 	}
 	for i, v := range a.lays {
@@ -227,14 +241,16 @@ func (k *setCase[T]) build() (s1, s2 []T) {
 }
 
 // dst builds the destination for layout l. dst = s2[:0] is replaced by s1[:0]
-// for one-operand functions and when s2 starts inside s1 behind its first
-// element (a destination in the middle of the slice being read is a write
-// cursor ahead of the read cursor: not a "prefix s[:0] of an input" whose
-// outcome any definition promises).
+// for one-operand functions.
 func (k *setCase[T]) dst(l lay, s1, s2 []T, single bool) ([]T, lay) {
 	rng := k.c.Rng
-	if l == layS2 && (single || (k.mode == aliasS2inS1 && k.a > 0)) {
+	if l == layS2 && single {
 		l = layS1
+	}
+	if l == layS2 && k.mode == aliasS2inS1 && k.a > 0 {
+		// s2 is a part of s1 that starts behind s1[0]: dst = s2[:0] is still "the prefix
+		// s[:0] of an input"; the write cursor starts ahead of the read cursor
+		k.c.Add("dst_is_prefix_of_s2_inside_s1", 1)
 	}
 	switch l {
 	case layNil:
@@ -261,6 +277,11 @@ func (k *setCase[T]) dst(l lay, s1, s2 []T, single bool) ([]T, lay) {
 		return s1[:1+rng.Intn(len(s1))], l
 	case layS1zc:
 		return s1[:0:0], l
+	case layS1c:
+		if len(s1) < 2 {
+			return s1[:0:len(s1)], l
+		}
+		return s1[: 0 : 1+rng.Intn(len(s1)-1)], l
 	default:
 		return s2[:0], layS2
 	}
@@ -292,6 +313,15 @@ func (k *setCase[T]) out(op int, param string, l lay, got, want, d []T) bool {
 	}
 	if l >= layS1 && len(want) > 0 {
 		k.acc.misc[cAliasedNonEmpty]++
+	}
+	if l >= layS1 && l != layS1zc && len(k.v1) > 0 {
+		k.acc.aop[op]++
+		if l == layS2 {
+			k.acc.a2op[op]++
+		}
+	}
+	if l == layS1c && cap(d) > 0 && len(want) > cap(d) {
+		k.acc.misc[cAliasedRoomExhausted]++
 	}
 	if len(got) > 0 && cap(d) > 0 && &got[0] != &d[:1][0] {
 		k.acc.misc[cDstGrew]++
@@ -454,6 +484,7 @@ func (k *setCase[T]) classify(code1, code2 []int) {
 	if len(refUnique(k.v1)) < len(k.v1) {
 		k.acc.misc[cDup]++
 	}
+	c.Add("setops_inputs_of_element_type/"+k.in.name, 1)
 	if len(k.v1) > 1 || len(k.v2) > 0 {
 		h := hashInts(hashInts(ev.HashString(k.in.name+k.keyName+k.predName), code1), code2)
 		c.Distinct(ev.Mix(h, uint64(k.mode), uint64(k.a), uint64(k.b)))
@@ -527,7 +558,7 @@ func randSet[T comparable](c *ev.Case, acc *setAcc, in *setInst[T], sample bool)
 	k.pred, k.predName = in.preds[pi], "["+in.predNames[pi]+"]"
 	k.classify(code1, code2)
 	lays := func() []lay {
-		return []lay{lay(rng.Intn(int(nLay))), lay(rng.Pick(int(layS1), int(layS1), int(layS2), int(layS1k)))}
+		return []lay{lay(rng.Intn(int(nLay))), lay(rng.Pick(int(layS1), int(layS1), int(layS2), int(layS1k), int(layS1c)))}
 	}
 	if !k.runAll(lays) {
 		return false
